@@ -35,6 +35,24 @@ theorem get_remaining_ttl_leaf (r : Rec) (now : Int) :
 theorem get_remaining_ttl_eq (r : Rec) (now : Int) : (DNSRecord.get_remaining_ttl r now).toNat = r.remainingTtl now := by
   rw [get_remaining_ttl_leaf]; rfl
 
+/-- `get_remaining_ttl` against its docstring ("the remaining TTL in seconds", never negative) — stated independently of the leaf
+translation, so that a change of the body (e.g. dropping the clamp at 0) breaks *this* lemma -/
+theorem get_remaining_ttl_spec (r : Rec) (now : Int) :
+    DNSRecord.get_remaining_ttl r now =
+      if (r.created : Int) + 1000 * (r.ttl : Int) - now < 0 then 0 else ((r.created : Int) + 1000 * (r.ttl : Int) - now) / 1000 := by
+  have hd : DNSRecord.get_remaining_ttl r now =
+      Int.fdiv (if decide ((r.created : Int) + 1000 * (r.ttl : Int) - now < 0 * 1000) = true then 0 * 1000
+        else ((r.created : Int) + 1000 * (r.ttl : Int) - now) * 1) 1000 := rfl
+  rw [hd]
+  obtain ⟨x, hx⟩ : ∃ x : Int, x = (r.created : Int) + 1000 * (r.ttl : Int) - now := ⟨_, rfl⟩
+  rw [← hx]
+  by_cases h : x < 0
+  · have h' : x < 0 * 1000 := by omega
+    simp [h]
+  · have h' : ¬ x < 0 * 1000 := by omega
+    simp only [h, h', decide_false, Bool.false_eq_true, if_false, Int.mul_one]
+    exact Int.fdiv_eq_ediv_of_nonneg _ (by omega)
+
 /-- `_suppressed_by_answer` -/
 theorem suppressed_by_answer_eq (a b : Rec) : DNSRecord.suppressed_by_answer lower a b = a.suppressedByAnswer lower b := by
   simp [DNSRecord.suppressed_by_answer, Rec.suppressedByAnswer, Gen.Dns.suppressed_by_answer_ttl, Id.run, pure]
